@@ -117,6 +117,10 @@ impl GseDecapMemory for SimpleGseMemory {
     }
 
     fn new_frag(&mut self, context: DecapContext) -> Result<MemoryContext, DecapMemoryError> {
+        // a memory without slot can not follow any fragment
+        if self.max_frag_id == 0 {
+            return Err(DecapMemoryError::StorageUnderflow);
+        }
         let frag_id = context.frag_id;
         let idx = frag_id as usize % self.max_frag_id;
 
@@ -133,6 +137,9 @@ impl GseDecapMemory for SimpleGseMemory {
     }
 
     fn take_frag(&mut self, frag_id: u8) -> Result<MemoryContext, DecapMemoryError> {
+        if self.max_frag_id == 0 {
+            return Err(DecapMemoryError::UndefinedId);
+        }
         let idx = frag_id as usize % self.max_frag_id;
 
         // a context saved under another frag id sharing this slot stays in place
@@ -152,6 +159,9 @@ impl GseDecapMemory for SimpleGseMemory {
 
     fn save_frag(&mut self, context: MemoryContext) -> Result<(), DecapMemoryError> {
         let (decap_context, pdu) = context;
+        if self.max_frag_id == 0 {
+            return Err(DecapMemoryError::MemoryCorrupted);
+        }
         let idx = decap_context.frag_id as usize % self.max_frag_id;
 
         match self.frags[idx] {
